@@ -1077,3 +1077,72 @@ Qed.
 Corollary cavity_nonempty : forall P T i t,
   In t T -> gorient (resolve P t) < 0 -> Inside (resolve P t) (nth i P pzero) -> In t (bad_of P T i).
 Proof. intros P T i t Ht CW Hin. apply bad_of_in. split; [exact Ht|apply containing_triangle_bad; assumption]. Qed.
+
+(* ================================================================== 12. preservation of edge closure, reduced *)
+Lemma edge_same_cases : forall e f, edge_same e f = true -> f = e \/ f = (snd e, fst e).
+Proof.
+  intros [a b] [c d] H. unfold edge_same in H. cbn [fst snd] in *.
+  apply orb_true_iff in H. destruct H as [H|H]; apply andb_true_iff in H; destruct H as [H1 H2];
+    apply Nat.eqb_eq in H1; apply Nat.eqb_eq in H2; subst; auto.
+Qed.
+
+Lemma in_insert_new : forall P T i u v,
+  In (u, v) (cavity_boundary P T i) -> star_shaped P T i -> u <> i -> v <> i ->
+  In (u, v, i) (insert P T i).
+Proof.
+  intros P T i u v He Star Hu Hv. apply insert_in. right. exists (u, v). split; [exact He|]. split.
+  - apply skip_edge_false. cbn [fst snd]. auto.
+  - symmetry. apply star_new_tri. exact (Star (u, v) He).
+Qed.
+
+Theorem insert_keeps_closed : forall P n T i,
+  (forall t, In t T -> gorient (resolve P t) < 0) ->
+  edge_closed n T -> edge_unique T ->
+  (forall t, In t T -> ~ In i (tri_verts t)) ->
+  star_shaped P T i -> boundary_chains P T i ->
+  edge_closed n (insert P T i).
+Proof.
+  intros P n T i CW EC EU Fresh Star Ch x e Hx He.
+  assert (PolyV : forall u v, In (u, v) (cavity_boundary P T i) -> u <> i /\ v <> i).
+  { intros u v Hp. apply polygon_in in Hp. destruct Hp as [b [Hb [Eb _]]]. apply bad_of_in in Hb.
+    destruct Hb as [HbT _]. destruct (edge_verts b (u, v) Eb) as [V1 V2]. cbn [fst snd] in V1, V2.
+    split; intros ->; exact (Fresh b HbT ltac:(assumption)). }
+  apply insert_in in Hx. destruct Hx as [[HxT Nb]|[e0 [Hp [_ ->]]]].
+  - (* a kept triangle *)
+    destruct (EC x e HxT He) as [S|[g [Hg Eg]]]; [left; exact S|right].
+    assert (Dg : In g (bad_of P T i) \/ ~ In g (bad_of P T i)).
+    { destruct (existsb (tri_eqb g) (bad_of P T i)) eqn:Eb; [left; apply tri_inb_in; exact Eb|right].
+      rewrite <- tri_inb_in. congruence. }
+    destruct Dg as [Bg|Ng].
+    + (* the neighbour is removed: its side of the edge is a boundary edge and is re-fanned *)
+      assert (Hp : In (snd e, fst e) (cavity_boundary P T i)).
+      { apply polygon_in. exists g. split; [exact Bg|]. split; [exact Eg|].
+        destruct (shared (bad_of P T i) g (snd e, fst e)) eqn:Sh; [exfalso|reflexivity].
+        apply shared_true in Sh. destruct Sh as [o [Bo [Ne [f [Hf Sm]]]]].
+        pose proof Bo as Bo'. apply bad_of_in in Bo'. destruct Bo' as [HoT _].
+        apply edge_same_cases in Sm. cbn [fst snd] in Sm. destruct Sm as [->| ->].
+        - apply Ne. exact (EU o g _ HoT Hg Hf Eg).
+        - destruct e as [a b]. cbn [fst snd] in *. assert (o = x) by exact (EU o x _ HoT HxT Hf He).
+          subst o. contradiction. }
+      destruct (PolyV _ _ Hp) as [V1 V2].
+      exists (snd e, fst e, i). split; [apply in_insert_new; assumption|]. simpl. auto.
+    + exists g. split; [|exact Eg]. apply insert_in. left. split; assumption.
+  - (* a triangle of the fan *)
+    destruct e0 as [u v]. unfold cavity_boundary in *. pose proof (Star (u, v) Hp) as St. cbn [fst snd] in St.
+    rewrite (star_new_tri P u v i St) in He. simpl in He.
+    pose proof Hp as Hp'. apply polygon_in in Hp'. destruct Hp' as [b [Hb [Eb Sh]]].
+    pose proof Hb as Hb'. apply bad_of_in in Hb'. destruct Hb' as [HbT _].
+    destruct (Ch u v Hp) as [[x0 Hx0] [y0 Hy0]].
+    destruct He as [<-|[<-|[<-|[]]]]; cbn [fst snd].
+    + destruct (EC b (u, v) HbT Eb) as [S|[g [Hg Eg]]]; [left; exact S|right]. cbn [fst snd] in Eg.
+      exists g. split; [|exact Eg]. apply insert_in. left. split; [exact Hg|]. intros Bg.
+      assert (S : shared (bad_of P T i) b (u, v) = true); [|congruence].
+      apply shared_true. exists g. split; [exact Bg|]. split.
+      * intros ->. exact (no_both_directions P b u v (CW b HbT) Eb Eg).
+      * exists (v, u). split; [exact Eg|]. unfold edge_same. cbn [fst snd].
+        rewrite !Nat.eqb_refl. rewrite orb_true_r. reflexivity.
+    + right. destruct (PolyV _ _ Hx0) as [V1 V2]. exists (v, x0, i).
+      split; [apply in_insert_new; assumption|]. simpl. auto.
+    + right. destruct (PolyV _ _ Hy0) as [V1 V2]. exists (y0, u, i).
+      split; [apply in_insert_new; assumption|]. simpl. auto.
+Qed.
